@@ -141,10 +141,18 @@ def _partial_list(items, tail):
 def gen_callable(rng, depth):
     from problog.logic import Term
     n = rng.randint(0, 2)
-    return Term(rng.choice(["p", "q", "r", "'my pred'"]), *[gen_term(rng, depth, True) for _ in range(n)])
+    args = [gen_term(rng, depth, True) for _ in range(n)]
+    if depth >= 1 and rng.random() < 0.12:
+        # a goal as an argument (meta-calls such as findall(X, (p(X), (q(X) ; r(X))), L)): a conjunction, whose members may
+        # be disjunctions
+        from problog.logic import And
+        b = gen_body(rng, 2, word_not=False)       # (inside an argument `not` is printed as not(...), an ordinary term)
+        if type(b) == And:
+            args.append(b)
+    return Term(rng.choice(["p", "q", "r", "'my pred'"]), *args)
 
 
-def gen_body(rng, depth):
+def gen_body(rng, depth, word_not=True):
     from problog.logic import And, Or, Not, Term
     r = rng.random()
     if depth <= 0 or r < 0.4:
@@ -153,10 +161,10 @@ def gen_body(rng, depth):
             return gen_callable(rng, 1)
         if k < 0.85:
             return Term(rng.choice(["<", ">", "=<", "is", "=", "\\=", "=:="]), gen_term(rng, 1), gen_term(rng, 1))
-        return Not(rng.choice(["\\+", "\\+", "not"]), gen_callable(rng, 1))
+        return Not(rng.choice(["\\+", "\\+", "not"]) if word_not else "\\+", gen_callable(rng, 0))
     # conjunctions and disjunctions in the right-nested form the parser and And.from_list / Or.from_list build
     # (a left-nested And(And(a,b),c) prints as "a, b, c", which denotes the right-nested term)
-    items = [gen_body(rng, depth - 1) for _ in range(rng.randint(2, 3))]
+    items = [gen_body(rng, depth - 1, word_not) for _ in range(rng.randint(2, 3))]
     if r < 0.8:
         items = [x for it in items for x in (_flatten(it, And))]
         return And.from_list(items)
